@@ -280,12 +280,12 @@ MANIFEST = {
                    "every run by a differential over the real CA, server and authenticators on parsed leaf certificates. One recorded unrepaired finding: "
                    "the gate does not constrain the trust domain of an impersonated identity (KNOWN-FINDING issue:impersonation-foreign-trust-domain)."),
     "level_note": ("Trusted: Lean kernel + {propext, Classical.choice, Quot.sound}; the hand-written model (tied by differential testing: 1500 cases / "
-                   "~4700 real CreateCertificate calls of which ~900 with a real authenticator inside the server, ~125 dynamic pod/cluster worlds + 3000 authenticator "
-                   "cases incl. real TLS handshakes quick; 30000 + 60000 "
+                   "~3900 real CreateCertificate calls of which ~800 with one to three real authenticators inside the server, ~100 dynamic pod/cluster worlds + 2500 "
+                   "authenticator cases incl. real TLS handshakes quick; 30000 + 60000 "
                    "thorough); crypto/x509 + ASN.1 as an opaque encoding with decode(encode d)=d (the leaf's signature under the CA's signing certificate is "
                    "checked by the harness, not proved); a nominal clock; the verif-tagged accessor files security/pkg/server/ca/zz_verif_c09.go and "
                    "pkg/kube/multicluster/zz_verif_c09.go; the fake API server's emulation of the status.phase field selector; X.509 path building modelled on "
-                   "issuer names. Not modelled: serial numbers, token cryptography / TokenReview / JWKS (inputs), "
+                   "issuer names; istiod's tls.Config for the client-certificate path is a hand copy tied to pilot/pkg/bootstrap/server.go by source facts. Not modelled: serial numbers, token cryptography / TokenReview / JWKS (inputs), "
                    "the third-party XFCC grammar (its parse is an input), OIDC discovery (only jwks_uri), non-UTF-8 identities in CreateCertificate, gRPC "
                    "transport, root-cert rotation, the RA path. errors_not_crashes assumes no reached authenticator panics; XFCC panics for a peer address "
                    "whose host is not an IP literal (not a TCP peer)."),
